@@ -7,7 +7,7 @@
    serves all streams.  Glue (trusted with the harness): flat row-major data -> nested body. *)
 From Coq Require Import List NArith ZArith String Bool.
 From Coq Require QArith Qcanon.
-From EKW Require Import Fluent.XArr Fluent.Action Fluent.ActionProofs Fluent.ActionCheck Fluent.ActionSem.
+From EKW Require Import Fluent.XArr Fluent.Action Fluent.ActionProofs Fluent.ActionCheck Fluent.ActionSem Fluent.ActionSemT.
 Import ListNotations.
 Open Scope string_scope.
 Open Scope list_scope.
@@ -66,16 +66,68 @@ Definition check_values (c : vcase) : bool :=
   | Err _ => false
   end.
 
+(* ------------------------------------------------------------------ typed values (Fluent/ActionSemT.v) *)
+(* a source array with its element type; observed cell = element type, shape, exact values as num/den
+   (a binary floating-point number IS a rational) *)
+Definition tsrc (d : BD.dtype) (s : list nat) (l : list Z) : tarr := (d, ti s l).
+Definition ovalT := (BD.dtype * list nat * list (Z * positive))%type.
+
+Definition qfrac (x : Z * positive) : Qcanon.Qc := Qcanon.Q2Qc (QArith_base.Qmake (fst x) (snd x)).
+
+(* the model has no opinion: the exact result is not a value of the floating-point result type, or not a
+   number at all.  (An uninterpreted callable is NOT in this list: the typed stream only uses interpreted ones.) *)
+Definition silent (e : string) : bool :=
+  existsb (String.eqb e) ["rounding-outside-model"; "NaN-outside-model"; "irrational-outside-model"; "inf-outside-model";
+                          "fractional-exponent-outside-model"].
+
+Definition val_eqbT (exact : bool) (v : tval) (o : ovalT) : bool :=
+  let '(od, os, ol) := o in
+  match v with
+  | BT.Ok (d, t) => BD.dtype_eqb d od && BT.shape_eqb (BT.shape t) os && BT.conforms (BT.shape t) (BT.body t) &&
+                    list_eqb Qcanon.Qc_eq_bool (BT.leaves (BT.shape t) (BT.body t)) (map qfrac ol)
+  | BT.Err e => negb exact && silent e
+  end.
+
+Definition is_okbT (v : tval) : bool := match v with BT.Ok _ => true | BT.Err _ => false end.
+
+Definition wf_inputT (a : tarr) : bool := wf_input (snd a) && BD.all_repr (fst a) (snd a).
+
+(* exact = true: the harness vouches that nothing on the way can round (integer / boolean element types under
+   ring and structural operations, or floating-point data whose every intermediate value is a small integer):
+   then the model must DECIDE every cell *)
+Definition tcase := (list instr * list tarr * (list ovalT + nat * string) * bool)%type.
+
+Definition check_values_t (c : tcase) : bool :=
+  let '(p, srcs, exp, exact) := c in
+  forallb wf_inputT srcs &&
+  match run [] p with
+  | Ok env =>
+      match rev env with
+      | a :: _ =>
+          let vs := valuesT srcs a in
+          match exp with
+          | inl os => all2 (val_eqbT exact) vs os
+          | inr (k, e) =>
+              forallb is_okbT (firstn k vs) &&
+              match nth_error vs k with Some (BT.Err e') => String.eqb e e' | _ => false end
+          end
+      | [] => false
+      end
+  | Err _ => false
+  end.
+
 Inductive anycase : Type :=
 | CLast (c : list instr * (observed + string))       (* structure of the last result / exception class *)
 | CAll (c : list instr * list (nat * observed))      (* structure of several results of one session *)
-| CVal (c : vcase).                                  (* values of the last result *)
+| CVal (c : vcase)                                   (* values of the last result *)
+| CValT (c : tcase).                                 (* values AND element types of the last result *)
 
 Definition check_any (c : anycase) : bool :=
   match c with
   | CLast x => check_case x
   | CAll x => check_session x
   | CVal x => check_values x
+  | CValT x => check_values_t x
   end.
 
 (* for diagnosis from the harness: the model's values as text-free data *)
@@ -85,6 +137,16 @@ Definition model_values (p : list instr) (srcs : list BT.tensor) : list (list na
               | a :: _ => map (fun v : val => match v with
                                       | BT.Ok t => inl (BT.shape t, BT.leaves (BT.shape t) (BT.body t))
                                       | BT.Err e => inr e end) (values srcs a)
+              | [] => [] end
+  | Err e => [inr e]
+  end.
+
+Definition model_values_t (p : list instr) (srcs : list tarr) : list (BD.dtype * list nat * list Qcanon.Qc + string) :=
+  match run [] p with
+  | Ok env => match rev env with
+              | a :: _ => map (fun v : tval => match v with
+                                      | BT.Ok (d, t) => inl (d, BT.shape t, BT.leaves (BT.shape t) (BT.body t))
+                                      | BT.Err e => inr e end) (valuesT srcs a)
               | [] => [] end
   | Err e => [inr e]
   end.
